@@ -217,11 +217,23 @@ class SourceFile:
                         j = self.toks[j].mate
                     j += 1
                 if j < hi and self.toks[j + 1].text == "{":
-                    hits.append((k, j + 1, self.toks[j + 1].mate))
+                    hits.append((k, j + 1, self.toks[j + 1].mate, True))
+                elif j < hi:
+                    # expression arm: up to the `,` that ends it
+                    e = j + 1
+                    while e < hi and not (self.toks[e].text == "," and self.toks[e].depth == d):
+                        if self.toks[e].kind == "open":
+                            e = self.toks[e].mate
+                        if self.toks[e].kind == "close" and self.toks[e].depth < d:
+                            break
+                        e += 1
+                    hits.append((k, j + 1, e - 1, False))
         if len(hits) != 1:
-            raise LostAnchor(f"arm `{head}`: {len(hits)} matching arms with a block body")
-        k, bo, bc = hits[0]
+            raise LostAnchor(f"arm `{head}`: {len(hits)} matching arms")
+        k, bo, bc, blk = hits[0]
         body = self.src[self.toks[bo].start:self.toks[bc].end]
+        if not blk:
+            body = "{ " + body + " }"
         return f"fn {name}{sig} {body}", self.toks[k].start, self.toks[bc].end
 
     def text(self, it: Item) -> str:
